@@ -387,16 +387,20 @@ MANIFEST = dict(
           "ways a library can deviate (stores-input, returns-internal, writes-caller-capacity, writes-caller-data, returns-input). "
           "TLC proves NoForeignWrite, LibraryValuesStable and NoSharing for the library the property demands over every "
           "schedule of <= 6 steps, and shows that each fault class is exposed by a schedule of <= 4 steps. Plan_Ownership writes "
-          "out every maximal schedule per shape class of the inventory table (OwnershipInventory.tla: 414 operation kinds "
+          "out every maximal schedule per shape class of the inventory table (OwnershipInventory.tla: 771 operation kinds "
           "covering 394 of the 398 public operations that exchange []byte / secretdata.Bytes / byte-carrying protos, which a "
           "go/types extractor lists from the current tree; 4 are excluded with reasons; a new operation missing from the "
           "table is exit 2). The driver executes every schedule on real objects in two buffer layouts; TLC (Trace_Ownership, "
           "stepping Ownership with Faults = {}) judges every region's data / spare capacity / guards, result aliasing (address "
           "ranges) and the object's observable value (Equal vs pristine copy, accessors, primitives built before and after) "
-          "after every step. quick: ~10.7k scenarios / ~97k events; thorough: 6-step schedules, ~10x."),
+          "after every step; deterministic calls are also re-submitted with the SAME caller buffers and compared with a pristine "
+          "counterpart (stale caches keyed by a caller slice). quick: ~18.6k scenarios / ~168k events; thorough: ~105k / ~1.43M."),
     note=("Bounded: one object per scenario, schedules of <= 4 (quick) / <= 6 (thorough) steps; thorough samples 80 of the up "
           "to 383 six-step schedules per (target, layout) by seed. Factory targets cover every primitive kind, every prefix type "
-          "incl. LEGACY and the legacy adapters (custom key managers), but one or two parameter sets per key type. Stateful "
+          "incl. LEGACY and the legacy adapters (custom key managers) with one or two parameter sets per key type; the key "
+          "classes' constructors and accessors are run for EVERY member of every family (all HPKE KEM ids, ECIES curves x point "
+          "formats, ECDSA curves/hashes/encodings, ML-DSA instances, SLH-DSA sets, RSA/JWT algorithms, hashes, key sizes, "
+          "variants, KID strategies) in every run, observing the key object without building primitives. Stateful "
           "objects (noncebased Writer/Reader, Polyval) are observed against a lock-step twin fed with copies. Not covered: "
           "*big.Int values, buffers the library passes to caller-implemented io.Reader/io.Writer, JWT primitives (their key "
           "classes and byte-exchanging helpers are covered). Verdict kinds: stores-input, returns-internal, "
